@@ -1,5 +1,7 @@
 use crate::core::{Case, Ctx};
 
+pub mod c01;
+pub mod c02;
 pub mod c03;
 pub mod c04;
 pub mod c05;
@@ -13,6 +15,8 @@ pub fn c03_targeted_small() -> Vec<String> {
 macro_rules! dispatch {
     ($prop:expr, $ctx:expr, $f:ident $(, $arg:expr)?) => {
         match $prop {
+            "C01" => c01::$f($ctx $(, $arg)?),
+            "C02" => c02::$f($ctx $(, $arg)?),
             "C03" => c03::$f($ctx $(, $arg)?),
             "C04" => c04::$f($ctx $(, $arg)?),
             "C05" => c05::$f($ctx $(, $arg)?),
